@@ -96,8 +96,9 @@ struct Case {
     #[serde(default)]
     shared: Option<(u8, u8, i64)>,
     /// the sinks accept at most this many bytes per write call (a writer may legally do that);
-    /// only used when the writer expression has no `and` (a tee over short writers is lossy by
-    /// its own definition)
+    /// sink 0 takes that many, sink 1 everything, sink 2 about twice as many: fmt hands records
+    /// over with write_all, and every combinator (the tee included) forwards write_all to each
+    /// side, so every selected sink still has to end up with the whole record
     #[serde(default)]
     short: Option<u8>,
 }
@@ -107,8 +108,8 @@ const TGT: [&str; 2] = ["a", "c"];
 // ---- recording sinks --------------------------------------------------------------------------
 #[derive(Clone, Debug)]
 enum SinkEv {
-    Make { level: u8, target: String, thread: u8, with_meta: bool },
-    Write { bytes: Vec<u8>, thread: u8 },
+    Make { level: u8, target: String, thread: u8, with_meta: bool, wid: usize },
+    Write { bytes: Vec<u8>, thread: u8, wid: usize },
 }
 #[derive(Clone)]
 struct Sink {
@@ -119,11 +120,13 @@ struct Sink {
 struct SinkWriter {
     log: Arc<Mutex<Vec<SinkEv>>>,
     cap: usize,
+    /// which make_writer call handed this writer out
+    wid: usize,
 }
 impl io::Write for SinkWriter {
     fn write(&mut self, buf: &[u8]) -> io::Result<usize> {
         let n = if self.cap > 0 { buf.len().min(self.cap) } else { buf.len() };
-        self.log.lock().unwrap().push(SinkEv::Write { bytes: buf[..n].to_vec(), thread: vp_rec::tag() });
+        self.log.lock().unwrap().push(SinkEv::Write { bytes: buf[..n].to_vec(), thread: vp_rec::tag(), wid: self.wid });
         Ok(n)
     }
     fn flush(&mut self) -> io::Result<()> {
@@ -133,12 +136,16 @@ impl io::Write for SinkWriter {
 impl<'a> MakeWriter<'a> for Sink {
     type Writer = SinkWriter;
     fn make_writer(&'a self) -> SinkWriter {
-        self.log.lock().unwrap().push(SinkEv::Make { level: 0, target: String::new(), thread: vp_rec::tag(), with_meta: false });
-        SinkWriter { log: self.log.clone(), cap: self.cap }
+        let mut g = self.log.lock().unwrap();
+        let wid = g.len();
+        g.push(SinkEv::Make { level: 0, target: String::new(), thread: vp_rec::tag(), with_meta: false, wid });
+        SinkWriter { log: self.log.clone(), cap: self.cap, wid }
     }
     fn make_writer_for(&'a self, m: &Metadata<'_>) -> SinkWriter {
-        self.log.lock().unwrap().push(SinkEv::Make { level: vp_rec::rank(m.level()), target: m.target().to_string(), thread: vp_rec::tag(), with_meta: true });
-        SinkWriter { log: self.log.clone(), cap: self.cap }
+        let mut g = self.log.lock().unwrap();
+        let wid = g.len();
+        g.push(SinkEv::Make { level: vp_rec::rank(m.level()), target: m.target().to_string(), thread: vp_rec::tag(), with_meta: true, wid });
+        SinkWriter { log: self.log.clone(), cap: self.cap, wid }
     }
 }
 
@@ -435,11 +442,14 @@ fn run_case(case: &Case) -> Outcome {
             W::OrElseMax(a, _, b) | W::OrElseFilter(a, _, b) => has_tee(a) || has_tee(b),
         }
     }
+    // short sinks: sink 0 takes `cap` bytes per call, sink 1 everything, sink 2 twice as much as
+    // sink 0 (under a tee the two sides then make different progress per call)
     let cap = match case.short {
-        Some(c) if !has_tee(&case.writer) => 5 + c as usize % 60,
+        Some(c) => 5 + c as usize % 60,
         _ => 0,
     };
-    let sinks: Vec<Sink> = (0..3).map(|_| Sink { log: Default::default(), cap }).collect();
+    let _ = has_tee;
+    let sinks: Vec<Sink> = (0..3).map(|i| Sink { log: Default::default(), cap: if cap == 0 { 0 } else { [cap, 0, cap * 2 + 3][i] } }).collect();
     let mut opts_run = case.opts;
     if case.shared.is_some() {
         opts_run.span_events = 0; // whoever drops the last clone would emit the shared root's close record
@@ -584,24 +594,22 @@ fn run_case(case: &Case) -> Outcome {
             }
             let makes: Vec<(u8, String, bool)> = mine.iter().filter_map(|e| if let SinkEv::Make { level, target, with_meta, .. } = e { Some((*level, target.clone(), *with_meta)) } else { None }).collect();
             // the bytes written through each writer handed out (one per record)
-            let mut groups: Vec<(Vec<u8>, usize)> = vec![];
+            let mut groups: Vec<(Vec<u8>, usize, usize)> = vec![];
             for e in &mine {
                 match e {
-                    SinkEv::Make { .. } => groups.push((vec![], 0)),
-                    SinkEv::Write { bytes, .. } => {
-                        if groups.is_empty() {
-                            groups.push((vec![], 0));
+                    SinkEv::Make { wid, .. } => groups.push((vec![], 0, *wid)),
+                    SinkEv::Write { bytes, wid, .. } => {
+                        if let Some(g) = groups.iter_mut().find(|g| g.2 == *wid) {
+                            g.0.extend_from_slice(bytes);
+                            g.1 += 1;
                         }
-                        let g = groups.last_mut().unwrap();
-                        g.0.extend_from_slice(bytes);
-                        g.1 += 1;
                     }
                 }
             }
             // (without a byte cap every write call is a record of its own; with a tee the same sink
             // hands out several writers before the first write)
             let singles: Vec<&Vec<u8>> = mine.iter().filter_map(|e| if let SinkEv::Write { bytes, .. } = e { Some(bytes) } else { None }).collect();
-            let writes: Vec<&Vec<u8>> = if cap == 0 { singles } else { groups.iter().filter(|g| g.1 > 0).map(|g| &g.0).collect() };
+            let writes: Vec<&Vec<u8>> = if sink.cap == 0 { singles } else { groups.iter().filter(|g| g.1 > 0).map(|g| &g.0).collect() };
             let fail = |sig: String, d: String| Outcome::fail(sig, format!("sink {si}, thread {t}: {d}; case = {}", serde_json::to_string(case).unwrap_or_default()));
             if makes.len() != exp.len() {
                 let sig = if makes.len() > exp.len() { "writer factory asked for a record the writer expression does not route to this sink (or asked twice)" } else { "record not routed to a sink the writer expression selects" };
